@@ -236,6 +236,21 @@ EXTRA += [
      "inputs": {"t.go": b"package x\n\nfunc do() {\n\tn := -limit\n\tuse(n)\n\tm := limit\n\tuse(m)\n}\n"}},
 ]
 
+# statement patches whose last physical line carries an elision (the implicit trailing "..." of the statement list is recorded
+# at the end of the patch text: what follows the last line - end of file, a blank line, a comment, the next header - is layout)
+EXTRA += [
+    {"name": "x_last_line_dots", "patches": [("p.patch", b"@@\n@@\n start()\n-...\n-finish()\n+finish()\n+...")],
+     "inputs": {"t.go": b"package x\n\nfunc do() {\n\tstart()\n\ta()\n\tb()\n\tfinish()\n\tc()\n}\n"}},
+    {"name": "x_last_line_dots_nl", "patches": [("p.patch", b"@@\n@@\n start()\n-...\n-finish()\n+finish()\n+...\n")],
+     "inputs": {"t.go": b"package x\n\nfunc do() {\n\tstart()\n\ta()\n\tb()\n\tfinish()\n\tc()\n}\n"}},
+    {"name": "x_last_line_call_dots", "patches": [("p.patch", b"@@\n@@\n-begin(...)\n ...\n-end()\n+scope(...)")],
+     "inputs": {"t.go": b"package x\n\nfunc do() {\n\tbegin(1, 2)\n\ta()\n\tend()\n\tb()\n}\n"}},
+    {"name": "x_two_changes_tight", "patches": [("p.patch", b"@@\n@@\n first()\n-...\n-last()\n+last()\n+...\n@@\n@@\n-other(...)\n+another(...)")],
+     "inputs": {"t.go": b"package x\n\nfunc do() {\n\tfirst()\n\ta()\n\tlast()\n\tz()\n\tother(1)\n}\n"}},
+    {"name": "x_meta_one_line", "patches": [("p.patch", b"@@\nvar fn identifier; var x expression; var y expression\n@@\n-fn(x, y)\n+fn(y, x)\n")],
+     "inputs": {"t.go": b"package x\n\nfunc do() {\n\tcall(1, 2)\n\tother(a, b)\n}\n"}},
+]
+
 TRANSFORMS = [("comments", t_comments), ("blank", t_blank), ("name", t_name), ("rename", t_rename), ("regroup", t_regroup),
               ("respace", t_respace), ("rewrap", t_rewrap), ("context-pair", t_context_pair), ("widen", t_widen)]
 
